@@ -36,6 +36,29 @@ type rwState struct {
 type wgState struct{ n int64 }
 type poolState struct{ items []value }
 
+func (s *sideState) clone() *sideState {
+	c := newSideState()
+	for k, v := range s.mutex {
+		x := *v
+		c.mutex[k] = &x
+	}
+	for k, v := range s.rw {
+		x := *v
+		c.rw[k] = &x
+	}
+	for k, v := range s.wg {
+		x := *v
+		c.wg[k] = &x
+	}
+	for k, v := range s.pool {
+		c.pool[k] = &poolState{items: append([]value{}, v.items...)}
+	}
+	for k, v := range s.smap {
+		c.smap[k] = v.clone()
+	}
+	return c
+}
+
 func newSideState() *sideState {
 	return &sideState{
 		mutex: map[*value]*mutexState{}, rw: map[*value]*rwState{}, wg: map[*value]*wgState{},
@@ -48,6 +71,7 @@ type world struct {
 	poolMode int // 0 fresh, 1 LIFO reuse, 2 solver/engine choice
 	now      int64
 	counters map[string]int
+	fmtRecs  []fmtRec
 }
 
 var anyType = types.NewInterfaceType(nil, nil).Complete()
@@ -611,7 +635,7 @@ func extPoolPut(fr *frame, args []value) value {
 func (i *interpreter) smapOf(p *value) *omap {
 	m := i.side.smap[p]
 	if m == nil {
-		m = newOmap()
+		m = i.newOmap()
 		i.side.smap[p] = m
 	}
 	return m
@@ -675,7 +699,7 @@ func extSMapLen(fr *frame, args []value) value {
 }
 
 func extSMapClear(fr *frame, args []value) value {
-	fr.i.side.smap[args[0].(*value)] = newOmap()
+	fr.i.side.smap[args[0].(*value)] = fr.i.newOmap()
 	return nil
 }
 
